@@ -606,6 +606,8 @@ class CallGraph:
         self.r = Resolver(model, fanout)
         self.edges: Dict[str, List[Tuple[ast.Call, List[FuncInfo], str]]] = {}
         self.stats = {"call_sites": 0, "resolved": 0, "external": 0, "unresolved": 0, "fanout": 0}
+        # precise implicit calls, by id() of the AST node that performs them: property loads and getattr reflection
+        self.implicit: Dict[str, Dict[int, List[FuncInfo]]] = {}
         for f in list(model.funcs.values()):
             out = []
             for c in self.r.calls_in(f):
@@ -623,12 +625,15 @@ class CallGraph:
                             if pm is not None and pm.is_property:
                                 fake = ast.Call(func=n, args=[], keywords=[])
                                 ast.copy_location(fake, n)
-                                out.append((fake, model.overrides(c, n.attr) if fanout else [pm], "resolved"))
+                                tg = model.overrides(c, n.attr) if fanout else [pm]
+                                out.append((fake, tg, "resolved"))
+                                self.implicit.setdefault(f.qualname, {}).setdefault(id(n), []).extend(x for x in tg if x not in self.implicit[f.qualname][id(n)])
             # reflection through getattr(self, "<prefix>%s" % x)
             for c in self.r.calls_in(f):
                 gt = self.r.getattr_targets(f, c)
                 if gt:
                     out.append((c, gt, "resolved"))
+                    self.implicit.setdefault(f.qualname, {}).setdefault(id(c), []).extend(gt)
                     self.stats["reflection"] = self.stats.get("reflection", 0) + 1
             # address-taken functions
             for (node, tg) in self.r.address_taken(f):
